@@ -13,6 +13,11 @@ def M3.IsOrthogonal (R : M3 ℝ) : Prop := M3.mul (M3.transpose R) R = M3.one
 /-- a pose whose rotation part is an orthogonal matrix -/
 def Pose.IsRigid (P : Pose ℝ) : Prop := M3.IsOrthogonal P.R
 
+/-- determinant of a 3x3 matrix -/
+def M3.det (m : M3 ℝ) : ℝ :=
+  m.r0.x * (m.r1.y * m.r2.z - m.r1.z * m.r2.y) - m.r0.y * (m.r1.x * m.r2.z - m.r1.z * m.r2.x) +
+    m.r0.z * (m.r1.x * m.r2.y - m.r1.y * m.r2.x)
+
 /-! ## 3x3 algebra by components -/
 
 theorem M3.mulVec_mulVec (A B : M3 ℝ) (p : V3 ℝ) : A.mulVec (B.mulVec p) = (A.mul B).mulVec p := by
